@@ -110,7 +110,33 @@ def tree_models(mb: ModelBuilder) -> dict[str, AObj]:
     # the same kind of tree built the way the FaMa XML reader builds it: empty relations filled child by child
     inc = ModelBuilder(mb.pm, style="incremental")
     ms["built-incrementally"] = inc.model(build_tree(inc, TREES["bushy"]), [])
+    ms.update(reader_models(mb.pm, mb))
     return ms
+
+
+def reader_models(pm: ProgramModel, mb: ModelBuilder) -> dict[str, AObj]:
+    """Models as the readers build them (evaluated from source on reference documents): whatever a reader leaves on the
+    objects besides the tree - a hint, a cache, a flag copied from the document - is there when the operations run.
+    The FeatureIDE document carries `mandatory` attributes on the members of its or / alternative groups, where the
+    format gives them no meaning."""
+    import json as _json
+    from . import c09
+    ref = c09.ref_model(mb)
+    docs = {
+        "read-by-FeatureIDEReader": ("FeatureIDEReader", c09.fide_doc(ref, False, False, False, group_flags=True).encode("utf8")),
+        "read-by-XMLReader": ("XMLReader", c09.fama_doc(ref).encode("utf8")),
+        "read-by-GlencoeReader": ("GlencoeReader", _json.dumps(c09.glencoe_doc(ref))),
+        "read-by-AFMReader": ("AFMReader", c09.afm_doc(ref)),
+    }
+    out: dict[str, AObj] = {}
+    from ..antlrstubs import Console
+    with Console():
+        for key, (reader, content) in docs.items():
+            r = c09.read(pm, reader, content)
+            if r["model"] is None:
+                raise AnalysisError("C16", f"{reader} does not read its reference document: {r['raise']}")
+            out[key] = r["model"]
+    return out
 
 
 def tree_stats(spec: Any, depth: int = 0) -> dict[str, Any]:
@@ -304,22 +330,27 @@ def check(pm: ProgramModel, ctx: Ctx) -> None:
     check_wrapper(pm, ctx, "C16-WRAP", "FMAverageBranchingFactor", "average_branching_factor",
                   "fm_average_branching_factor")
     check_wrapper(pm, ctx, "C16-WRAP", "FMVariationPoints", "variation_points", "fm_variation_points")
-    # ancestors wrapper takes the feature from a setter
+    # ancestors wrapper takes the feature from a setter: the result is the ancestors of the feature set for the current
+    # execution (decided by evaluation: two features at different depths of one tree, one after the other)
     anc = pm.cls("FMFeatureAncestors")
-    it = Interp(pm)
-    it.native[ga.qual] = it.signature_stub(ga, lambda f, *r: ("ANC", f))
-    op = AObj("FMFeatureAncestors")
-    f1, f2 = mb.feature("f1"), mb.feature("f2")
+    it = Interp(pm, max_depth=60)
+    r0, x1, x2, x3 = mb.feature("r"), mb.feature("x1"), mb.feature("x2"), mb.feature("x3")
+    mb.relation(r0, [x1], 1, 1)
+    mb.relation(x1, [x2], 0, 1)
+    mb.relation(x2, [x3], 1, 1)
+    fm0 = mb.model(r0, [])
     try:
-        it.call(pm.method(anc, "__init__"), [op])
-        it.call(pm.method(anc, "set_feature"), [op, f1])
-        it.call(pm.method(anc, "execute"), [op, mb.model(mb.feature("r"))])
-        it.call(pm.method(anc, "set_feature"), [op, f2])
-        it.call(pm.method(anc, "execute"), [op, mb.model(mb.feature("r"))])
+        op = it.eval_call_class(anc)
+        it.call(pm.method(anc, "set_feature"), [op, x1])
+        it.call(pm.method(anc, "execute"), [op, fm0])
+        it.call(pm.method(anc, "set_feature"), [op, x3])
+        it.call(pm.method(anc, "execute"), [op, fm0])
         r = it.call(pm.method(anc, "get_result"), [op])
+        want = it.call(ga, [x3])
     except AbsRaise as exc:
-        r = ("raise", exc.what)
-    ctx.check(r == ("ANC", f2) and r[1] is f2, "C16-WRAP", "wrap:FMFeatureAncestors",
+        r, want = ("raise", exc.what), None
+    okw = isinstance(r, list) and isinstance(want, list) and len(r) == len(want) == 3 and all(a is b for a, b in zip(r, want))
+    ctx.check(okw, "C16-WRAP", "wrap:FMFeatureAncestors",
               loc(anc.unit.path, anc.node), "the ancestors operation reports the ancestors of the "
               "feature set for the current execution", bad=f"FMFeatureAncestors returns {r!r}")
     ctx.floor(rule, "obligations", len(ctx.obligations), 40)
